@@ -50,6 +50,12 @@ def ij_arcs(quick):
                 for m in range(1, 25):
                     for cw in (True, False):
                         yield (sx, sy, rad, a0, m, cw)
+                if k % 3 == 0:
+                    # arcs that end a few micrometres from where they start (ninth wave, w9c16: "end == start means a
+                    # full circle" decided with a tolerance): the commanded sweep is chord / radius, not 2 pi
+                    for chord in (0.004, 0.0005):
+                        for cw in (True, False):
+                            yield (sx, sy, rad, a0, (chord / rad) * 12 / math.pi, cw)
                 if rad >= 50 and k % 3 == 0:
                     # gently curved walls: sweeps of a few hundredths of a radian (m is in twelfths of pi)
                     for sw in (0.01, 0.02, 0.05):
